@@ -6,6 +6,7 @@ import (
 	"encoding/binary"
 	"fmt"
 	"math/rand"
+	"path/filepath"
 	"strings"
 
 	"github.com/lindb/lindb/pkg/queue"
@@ -55,6 +56,10 @@ func genC05(rng *rand.Rand, tier string) *core.Plan {
 	p.Cfg["switch_pm"] = pick(rng, 0, 100, 400)
 	p.Cfg["crash_pm"] = pick(rng, 3, 10, 40)
 	p.Cfg["reader"] = rng.Intn(2)
+	if rng.Intn(4) == 0 {
+		p.Cfg["open_fail_pm"] = pick(rng, 100, 300, 1000)
+		p.Cfg["open_fail_max"] = 1 + rng.Intn(2)
+	}
 	if rng.Intn(4) == 0 {
 		p.Cfg["crash_create"] = 1 + rng.Intn(60) // the process dies at the n-th yield point of the queue's creation
 	}
@@ -258,6 +263,24 @@ func runC05(c *core.RunCtx) {
 				}
 			}
 		}
+		// page acquisition failures: the open / create of a data or index page fails with an I/O error
+		openFailed := map[int]bool{}
+		if pm := c.Plan.C("open_fail_pm", 0); pm > 0 {
+			left := c.Plan.C("open_fail_max", 1)
+			simrt.FailOpen = func(name string) error {
+				if left == 0 || crashedNow || sim.CurInc() != inc || !strings.HasPrefix(sim.CurTaskName(), "app") {
+					return nil
+				}
+				if !sim.Tape.Chance(float64(pm) / 1000) {
+					return nil
+				}
+				left--
+				openFailed[sim.CurTask()] = true
+				sim.Fault("page-open-fails")
+				sim.Event("injected open failure %s", strings.TrimPrefix(name, c.Dir))
+				return fmt.Errorf("open %s: injected: too many open files", filepath.Base(name))
+			}
+		}
 		running := 0
 		for a := 0; a < apps; a++ {
 			var mine []core.Op
@@ -281,6 +304,12 @@ func runC05(c *core.RunCtx) {
 						l.acked[o.B] = true
 						l.nAcked++
 						sim.Event("put %d ok", o.B)
+					} else if openFailed[sim.CurTask()] {
+						// the page the append needed could not be opened: the append reports it, the message counts
+						// as not appended (like one in flight at a crash), everything else must be as before
+						delete(openFailed, sim.CurTask())
+						sim.Probe("put-failed-by-open-error")
+						sim.Event("put %d err %v", o.B, err)
 					} else {
 						sim.Event("put %d err %v", o.B, err)
 						c.Anomaly("Put failed: %v", err)
@@ -302,6 +331,7 @@ func runC05(c *core.RunCtx) {
 		}
 		sim.Await(func() bool { return crashedNow || (running == 0 && readerDone) })
 		sim.OnYield = nil
+		simrt.FailOpen = nil
 		if c.Violated() {
 			return
 		}
